@@ -42,3 +42,14 @@ def norm(text):
                 common = k
     common = common or 0
     return '\n'.join(ln[common:] for ln in lines)
+
+
+def norm_equiv(a, b):
+    """equal up to the blanks kept on whitespace-only lines (the property does not say whether such a line keeps them)"""
+    la, lb = a.split('\n'), b.split('\n')
+    if len(la) != len(lb):
+        return False
+    for x, y in zip(la, lb):
+        if x != y and not (_blank(x) and _blank(y)):
+            return False
+    return True
